@@ -74,8 +74,15 @@ CLAIMS["C14"] = ("proof", "Identity clauses of all six wrappers (the body receiv
                  "exists), invariant.__call__ (returns the very class). Not covered: add_invariant_checks' constructor choice and the object.__new__ "
                  "argument rule (finding F13 is recorded in DESIGN.md, no check claims it yet).", "8 C14")
 
+CLAIMS["C03"] = ("proof", "Proved: the four invariant wrappers (exact traces: invariants selected by check-on before and after the body, body not "
+                 "entered after a failing before-invariant, constructor: only the outermost one checks, afterwards, all invariants; nothing while the "
+                 "object is under construction; identity of result/exception; state restored), _assert_invariant, invariant.__init__/__call__ "
+                 "(three lists per check_on, own lists only), _collapse_invariants, DBCMeta.__new__ (invariant wrapping requested iff the class has "
+                 "invariants). NOT proved, BOUNDED: which members add_invariant_checks wraps -- its dir()/getattr loop with three dependent loops is "
+                 "outside the executor's current reach; a bounded enumeration of class programs against a reference stands in (bound stated in "
+                 "the evidence, never counted in obligations/discharged).", "8 C03")
+
 NOT_YET = {
-    "C03": "invariant wrappers and add_invariant_checks not yet under contract in this round",
     "C06": "interpreter units (_recompute.Visitor) not yet under contract",
     "C07": "interpreter and decorator-inspection units not yet under contract",
     "C20": "repr_values / _represent units not yet under contract",
@@ -90,7 +97,7 @@ def main():
             "quick_cmd": "./check %s --tier quick" % pid,
             "thorough_cmd": "./check %s --tier thorough" % pid,
             "evidence_file": "/verif/evidence/%s.json" % pid,
-            "replay_cmd_template": "PYTHONPATH=/repo /venv/bin/python /verif/replay/%s --scenario {path}" % ({"C05": "bindfam.py", "C12": "ctxfam.py", "C15": "defnfam.py", "C19": "defnfam.py", "C14": "defnfam.py", "C04": "histfam.py", "C17": "histfam.py", "C18": "histfam.py"}.get(pid, "callfam.py")),
+            "replay_cmd_template": "PYTHONPATH=/repo /venv/bin/python /verif/replay/%s --scenario {path}" % ({"C05": "bindfam.py", "C12": "ctxfam.py", "C15": "defnfam.py", "C19": "defnfam.py", "C14": "defnfam.py", "C03": "invfam.py", "C04": "histfam.py", "C17": "histfam.py", "C18": "histfam.py"}.get(pid, "callfam.py")),
             "engine": "pyvc",
             "level_claimed": {"category": cat, "text": text + " The units under contract are listed with their AST hashes in the evidence file.", "design_ref": "DESIGN.md section " + ref},
             "level_note": TRUST,
